@@ -158,7 +158,7 @@ func (c *Ctx) ruleSQLAgreement(rule string, tables map[string]bool) {
 			}
 			// columns named by the statement exist
 			for _, col := range append(append([]string{}, st.SQL.Cols...), st.SQL.Where...) {
-				if col == "*" {
+				if col == "*" || strings.HasSuffix(col, "(...)") {
 					continue
 				}
 				found := false
@@ -247,6 +247,9 @@ func (c *Ctx) ruleSQLAgreement(rule string, tables map[string]bool) {
 				used := map[string]string{}
 				for i, dv := range st.Dests {
 					leaf := destLeaf(dv)
+					if strings.HasSuffix(sel[i], "(...)") {
+						continue // an aggregate / expression column: not a column of the table, any destination
+					}
 					if !colCompatible(sel[i], leaf) {
 						okAll = false
 						why = fmt.Sprintf("column %d (%s) is scanned into %q", i+1, sel[i], leaf)
@@ -301,6 +304,15 @@ func (c *Ctx) scanLocalsCopied(rule string, method string, pairs map[string]stri
 		}
 		for col, field := range pairs {
 			var dest *ssa.Alloc
+			selected := false
+			for _, cn := range cols {
+				if strings.EqualFold(cn, col) {
+					selected = true
+				}
+			}
+			if !selected {
+				continue // a statement that does not read this column (a count, a projection of other columns)
+			}
 			for i, cn := range cols {
 				if strings.EqualFold(cn, col) && i < len(st.Dests) {
 					dv := st.Dests[i]
